@@ -248,6 +248,33 @@ def prop_c01(k, c, cs):
             d = same_file(f, comments, comps)
             if d:
                 return f"FAIL {'path' if path else 'stream'} chk={chk}: read back differs: {d}"
+    # the object that was just written is changed and written again: the reader gets the new content
+    fobj = Bf3File(dict(comments), parse_comps(cs))
+    try:
+        write_text(fobj, key, False)
+    except Exception as e:
+        return "ok writer-rejects " + type(e).__name__
+    fobj.components.append(Bf3Component({0xC4: b"\x00\x8f"}, b"\xaa" * 5, 3))
+    if fobj.components[:-1]:
+        c0 = fobj.components[0]
+        c0.blob = c0.blob[::-1] + b"\x01"
+        c0.actual_len = len(c0.blob)
+    fobj.comments["Changed"] = "yes"
+    want_comps = list(fobj.components)
+    want_comments = dict(fobj.comments)
+    try:
+        text2 = write_text(fobj, key, False)
+    except OverflowError:
+        return "ok"
+    except Exception as e:
+        return f"FAIL writing the changed object raises {type(e).__name__}: {e}"
+    try:
+        f2 = read_text("1", k, text2, False)
+    except Exception as e:
+        return f"FAIL the second write of a changed file object is rejected by the reader: {type(e).__name__}: {e}"
+    d = same_file(f2, want_comments, want_comps)
+    if d:
+        return f"FAIL the second write of a changed file object reads back differently: {d}"
     return "ok"
 
 
@@ -337,6 +364,36 @@ def prop_c03(off, k, cs):
         if got != layout.serialize(kk, oo, sp):
             return ("FAIL a later serialisation of the same objects (other key / offset / order) differs from the documented layout: "
                     "state kept on the file or component objects")
+    # the same file object after it was CHANGED: a payload replaced, a tag added, a component appended and one removed -
+    # every serialisation describes the object as it is now (nothing computed for an earlier state may survive)
+    fobj = Bf3File({}, parse_comps(cs))
+    try:
+        fobj.to_binary(off, key)
+        fobj.write_file(io.StringIO(), key)
+    except Exception as e:
+        return f"FAIL writing the object a first time raises {type(e).__name__}"
+    live = fobj.components
+    if live:
+        c0 = live[0]
+        c0.blob = bytes((b + 1) & 0xFF for b in c0.blob) + b"\x5a"
+        c0.actual_len = len(c0.blob)
+        if 0x7D not in c0.description and sum(2 + len(v) for v in c0.description.values()) < 150:
+            c0.description[0x7D] = b"\x01\x02"
+    live.append(Bf3Component({0xC4: b"\x00\x8f"}, b"\xaa" * 5, 3))
+    if len(live) > 2:
+        del live[1]
+    spec2 = [(list(c.description.items()),
+              refaes.cbc_encrypt(key, bytes(16), refaes.zero_pad(c.blob)) if c.encrypt_by_session_key else c.blob, c.actual_len)
+             for c in live]
+    try:
+        got = fobj.to_binary(off, key)
+    except OverflowError:
+        got = None
+    except Exception as e:
+        return f"FAIL serialising the changed object raises {type(e).__name__}: {e}"
+    if got is not None and got != layout.serialize(key, off, spec2):
+        return ("FAIL after the file object was changed (payload replaced, tag and component added) its serialisation is not the "
+                "documented layout of its current content: something computed for the earlier state was reused")
     # `components` is declared as an Iterable: a tuple, an iterator or a generator gives the same file as the list
     for what, mk in (("tuple", tuple), ("iterator", iter), ("generator", lambda l: (c for c in l)), ("map", lambda l: map(lambda c: c, l))):
         try:
